@@ -9,7 +9,7 @@
    scale-invariant eps * p * max lam) keeps every eigenvalue. *)
 From Coq Require Import String ZArith List Bool Reals.
 From XV Require Import Base.Scalar Base.Sum Base.Mat Base.RInst Model.Eof Model.Whiten Gen.T5whiten
-  Proofs.C01_proofs Proofs.C16_proofs Proofs.C16_real Proofs.C16_tie.
+  Proofs.C01_proofs Proofs.C16_proofs Proofs.C16_real Proofs.C16_tie Proofs.C16_power.
 Import ListNotations.
 
 (* the whitening matrix is Hermitian (whenever it is a matrix at all: alpha < 1) *)
@@ -197,3 +197,15 @@ Theorem C16_model_matches_source :
      pca_inverse_components K p k m V Q = interp K pca_inverse_components_desc (env_of p k k m T Tinv V Q)).
 Proof. exact (conj tie_divisor (conj tie_scalars (conj tie_threshold (conj tie_structure (conj tie_whiten_maps tie_pca_maps))))). Qed.
 Print Assumptions C16_model_matches_source.
+
+(* the power oracle at the real instance: for alpha = a/b the positive answer of the relation d^(2b) lam^(b-a) = 1 is unique,
+   and the eigenvalue d^2 lam of the whitened covariance IS the real power lam^(a/b) of the standard library (exp (a/b ln lam)) *)
+Theorem C16_power_oracle_unique : forall (lam d1 d2 : R) (a b : nat), (0 < lam)%R -> (0 < d1)%R -> (0 < d2)%R -> (1 <= b)%nat -> (a <= b)%nat ->
+  (d1 ^ (2 * b) * lam ^ (b - a) = 1)%R -> (d2 ^ (2 * b) * lam ^ (b - a) = 1)%R -> d1 = d2.
+Proof. exact power_oracle_unique. Qed.
+Print Assumptions C16_power_oracle_unique.
+
+Theorem C16_whitened_eig_is_real_power : forall (lam d : R) (a b : nat), (0 < lam)%R -> (0 < d)%R -> (1 <= b)%nat -> (a <= b)%nat ->
+  (d ^ (2 * b) * lam ^ (b - a) = 1)%R -> (d * d * lam)%R = Rpower lam (INR a / INR b).
+Proof. exact whitened_eig_is_real_power. Qed.
+Print Assumptions C16_whitened_eig_is_real_power.
